@@ -547,6 +547,28 @@ func (d *Decls) declareConst(name, sortName string) {
 	}
 	d.constSeen[name] = true
 	d.consts = append(d.consts, fmt.Sprintf("(declare-fun %s () %s)", name, sortName))
+	// heap arrays of integer-typed fields / slices of integers: every cell is in
+	// the range of its Go type (typed memory)
+	key := ""
+	if strings.HasPrefix(name, "H0_") {
+		key = name[3:]
+	} else if strings.HasPrefix(name, "H_") {
+		key = name[2:]
+		if k := strings.LastIndex(key, "!"); k >= 0 {
+			key = key[:k]
+		}
+	}
+	if key != "" {
+		if ft, ok := d.heapTypes[key]; ok && ft != nil {
+			if lo, hi, isInt := intRange(ft); isInt {
+				d.axioms = append(d.axioms, fmt.Sprintf("(forall ((r Int)) (! (and (<= %s (select %s r)) (<= (select %s r) %s)) :pattern ((select %s r))))", lo, name, name, hi, name))
+			} else if sl, isSl := ft.Underlying().(*types.Slice); isSl {
+				if lo, hi, isInt := intRange(sl.Elem()); isInt {
+					d.axioms = append(d.axioms, fmt.Sprintf("(forall ((r Int) (i Int)) (! (and (<= %s (select (slc-arr (select %s r)) i)) (<= (select (slc-arr (select %s r)) i) %s)) :pattern ((select (slc-arr (select %s r)) i))))", lo, name, name, hi, name))
+				}
+			}
+		}
+	}
 }
 
 func (d *Decls) declareFun(name string, args []string, ret string) {
@@ -571,6 +593,12 @@ func (d *Decls) freshConst(hint string, t types.Type) T {
 		es := sn[5 : len(sn)-1]
 		d.declareConst(n+".arr", "(Array Int "+es+")")
 		d.declareConst(n+".len", "Int")
+		if sl, ok := t.Underlying().(*types.Slice); ok {
+			if lo, hi, isInt := intRange(sl.Elem()); isInt {
+				// typed memory: every element is in the range of its Go type
+				d.axioms = append(d.axioms, fmt.Sprintf("(forall ((i Int)) (! (and (<= %s (select %s.arr i)) (<= (select %s.arr i) %s)) :pattern ((select %s.arr i))))", lo, n, n, hi, n))
+			}
+		}
 		return T{S: "(mk-slc " + n + ".arr 0 " + n + ".len)", Ty: t}
 	}
 	d.declareConst(n, sn)
